@@ -761,6 +761,38 @@ func (ex *Exec) evalCall(e *SExpr, env *SpecEnv) (Val, types.Type) {
 				return s.Len
 			}
 			return Or(Neq(sa.Arr, sb.Arr), BVCmp("bvsle", BVOp("bvadd", sa.Off, capOf(sa)), sb.Off), BVCmp("bvsle", BVOp("bvadd", sb.Off, capOf(sb)), sa.Off)), boolT
+		case "seencount":
+			// number of keys the current range over map m has produced
+			mv, mtp := ex.evalSpec(args[0], env)
+			mt, ok := under(mtp).(*types.Map)
+			if !ok {
+				specFail("seencount: not a map: %s", args[0].String())
+			}
+			_, _, _, ks, sup := mapComps(mt)
+			if !sup {
+				specFail("unsupported map type in spec")
+			}
+			comp, _ := seenComp(mt, ks)
+			return Select(ex.get(env.cur, comp+":count", ArrSort(SRef, BV(64))), mv.(*Term)), intT
+		case "haskey", "seen":
+			// haskey(m, k): k is present in map m; seen(m, k): the current range over m has
+			// already produced key k
+			mv, mtp := ex.evalSpec(args[0], env)
+			mt, ok := under(mtp).(*types.Map)
+			if !ok {
+				specFail("%s: not a map: %s", fn.Name, args[0].String())
+			}
+			has, _, _, ks, sup := mapComps(mt)
+			if !sup {
+				specFail("unsupported map type in spec")
+			}
+			kv, _ := ex.evalSpec(args[1], env)
+			k := ex.mapKey(mt.Key(), ex.coerce(kv, mt.Key()))
+			comp := has
+			if fn.Name == "seen" {
+				comp, _ = seenComp(mt, ks)
+			}
+			return Select(Select(ex.get(env.cur, comp, ArrSort(SRef, ArrSort(ks, SBool))), mv.(*Term)), k), boolT
 		case "samearr":
 			a, _ := ex.evalSpec(args[0], env)
 			b, _ := ex.evalSpec(args[1], env)
